@@ -1,4 +1,1201 @@
+"""Mechanical C++ -> C extraction of /repo functions (run on every check).
+
+Pipeline (DESIGN 3.2):
+  1. gcc -E -x c on the real file (empty stand-ins for C++ std headers, portable defines): the real
+     preprocessor resolves conditional compilation and macros; line markers keep /repo line numbers.
+  2. split the stream into top-level items (descending into namespaces / extern "C"), each attributed
+     to its origin file by the line markers.  Items from C headers and system headers pass verbatim.
+  3. items from C++ files are classified (constexpr, using, enum class, class/struct, function,
+     variable, ...) and rewritten by the fixed rule list below; functions are kept only if selected by
+     the obligation's spec, everything dropped is recorded.
+  4. residue check: C++ tokens left in kept code -> ExtractError (exit 2 upstream, never a violation).
+
+What extraction changes is exactly this rule list (reported as `fired` counts in the evidence):
+  constexpr->enum/#define-free const, using->typedef, enum class->enum+prefix, class->struct (+flattened bases),
+  member function -> Class_f(self,...), reference -> pointer, auto -> __typeof__, casts, template
+  parameters -> macros, std::swap -> macro, throw -> RXV_THROW, UNREACHABLE -> assertion (via -D).
+"""
+import fnmatch, os, re, subprocess
+
+HERE = os.path.dirname(os.path.abspath(__file__))
+VERIF = os.path.dirname(HERE)
+
+
 class ExtractError(Exception):
     pass
+
+
+CXX_EXT = (".hpp", ".cpp", ".cc", ".hh")
+CXX_HEADERS_BY_NAME = ("intrin_portable.h", "soft_aes.h")
+
+PRELUDE = r"""
+/* ---- rxv extraction prelude ---- */
+#include <stdbool.h>
+#ifndef NULL
+#define NULL ((void*)0)
+#endif
+#define RXV_SWAP(a, b) do { __typeof__(a) rxv_tmp_ = (a); (a) = (b); (b) = rxv_tmp_; } while (0)
+#define RXV_MAX(a, b) ((a) > (b) ? (a) : (b))
+#define RXV_MIN(a, b) ((a) < (b) ? (a) : (b))
+#ifndef RXV_THROW
+/* ASSUME: an exceptional exit ends the path (properties are stated for normal returns) */
+#define RXV_THROW(what) do { __CPROVER_assume(0); } while (0)
+#endif
+/* ---- end prelude ---- */
+"""
+
+
+# ---------------------------------------------------------------------------------------------
+# text utilities
+# ---------------------------------------------------------------------------------------------
+
+def mask_strings(text):
+    """same-length copy with string/char literal contents blanked (no comments after cpp)"""
+    out = list(text)
+    i, n = 0, len(text)
+    while i < n:
+        c = text[i]
+        if c == '"' or c == "'":
+            k = i + 1
+            while k < n and text[k] != c:
+                k += 2 if text[k] == "\\" else 1
+            for t in range(i + 1, min(k, n)):
+                if out[t] != "\n":
+                    out[t] = " "
+            i = k + 1
+        else:
+            i += 1
+    return "".join(out)
+
+
+def match_fwd(m, i, o, c):
+    d = 0
+    for j in range(i, len(m)):
+        if m[j] == o:
+            d += 1
+        elif m[j] == c:
+            d -= 1
+            if d == 0:
+                return j
+    raise ExtractError("unbalanced %s at %d: %r" % (o, i, m[i:i + 60]))
+
+
+def match_back(m, i, o, c):
+    """m[i] == c (closing); return index of matching opening o"""
+    d = 0
+    for j in range(i, -1, -1):
+        if m[j] == c:
+            d += 1
+        elif m[j] == o:
+            d -= 1
+            if d == 0:
+                return j
+    raise ExtractError("unbalanced %s (backwards)" % c)
+
+
+def split_top(s, sep=","):
+    """split at top-level separators (depth over (), [], {}, <> not tracked for <>)"""
+    m = mask_strings(s)
+    parts, d, last = [], 0, 0
+    for i, ch in enumerate(m):
+        if ch in "([{":
+            d += 1
+        elif ch in ")]}":
+            d -= 1
+        elif ch == sep and d == 0:
+            parts.append(s[last:i])
+            last = i + 1
+    parts.append(s[last:])
+    return parts
+
+
+# ---------------------------------------------------------------------------------------------
+# step 1: preprocessing
+# ---------------------------------------------------------------------------------------------
+
+PORTABLE_UNDEFS = ["__SSE2__", "__SSE__", "__AES__", "__SSE3__", "__SSSE3__", "__SSE4_1__", "__AVX__", "__AVX2__",
+                   "__SIZEOF_INT128__"]
+
+
+def preprocess(path, repo, defines, undefs, extra_inc=()):
+    cmd = ["gcc", "-E", "-x", "c", "-std=gnu11", "-I", os.path.join(VERIF, "stubs", "cxxstd")]
+    for i in extra_inc:
+        cmd += ["-I", i]
+    cmd += ["-I", os.path.join(repo, "src")]
+    for u in undefs:
+        cmd.append("-U" + u)
+    for d in defines:
+        cmd.append("-D" + d)
+    cmd.append(path)
+    p = subprocess.run(cmd, stdout=subprocess.PIPE, stderr=subprocess.PIPE)
+    if p.returncode != 0:
+        raise ExtractError("preprocessing failed: " + p.stderr.decode()[-1500:])
+    return p.stdout.decode()
+
+
+# ---------------------------------------------------------------------------------------------
+# step 2: items
+# ---------------------------------------------------------------------------------------------
+
+class Item:
+    def __init__(self, file, line, text):
+        self.file, self.line, self.text = file, line, text
+
+    def __repr__(self):
+        return "<%s:%s %r>" % (os.path.basename(self.file), self.line, self.text[:50])
+
+
+LM = re.compile(r'^#\s*(\d+)\s+"([^"]*)"[^\n]*$', re.M)
+
+
+def strip_linemarkers(text):
+    """returns (clean text, list of (offset_in_clean, file, line))"""
+    out, marks, pos = [], [], 0
+    clean_len = 0
+    for mo in LM.finditer(text):
+        seg = text[pos:mo.start()]
+        out.append(seg)
+        clean_len += len(seg)
+        marks.append((clean_len, mo.group(2), int(mo.group(1))))
+        pos = mo.end() + 1
+    out.append(text[pos:])
+    return "".join(out), marks
+
+
+def locate(marks, clean, off):
+    """file/line of clean offset"""
+    lo, hi = 0, len(marks) - 1
+    best = None
+    while lo <= hi:
+        mid = (lo + hi) // 2
+        if marks[mid][0] <= off:
+            best = mid
+            lo = mid + 1
+        else:
+            hi = mid - 1
+    if best is None:
+        return "<unknown>", 0
+    o, f, l = marks[best]
+    return f, l + clean.count("\n", o, off)
+
+
+TYPE_HEAD = re.compile(r"\b(struct|class|union|enum)\b[^;(){}=]*$")
+
+
+def split_items(clean, marks, base=0, text=None, m=None):
+    """top-level items of clean[base:...] (text given for recursion)"""
+    if text is None:
+        text = clean
+        m = mask_strings(clean)
+    items = []
+    i, n = 0, len(text)
+    start = None
+    while i < n:
+        ch = m[i]
+        if start is None:
+            if ch.isspace() or ch == ";":
+                i += 1
+                continue
+            start = i
+        if ch == ";":
+            items.append((start, i + 1))
+            start = None
+            i += 1
+        elif ch == "(" or ch == "[":
+            i = match_fwd(m, i, ch, ")" if ch == "(" else "]") + 1
+        elif ch == "{":
+            head = m[start:i]
+            close = match_fwd(m, i, "{", "}")
+            if re.match(r"\s*(inline\s+)?namespace\b[^;{}()]*$", head) or re.match(r'\s*extern\s*"\s*"\s*$', head):
+                # descend
+                inner_items = split_items(clean, marks, base + i + 1, text[i + 1:close], m[i + 1:close])
+                items.append(("ns", head.strip(), inner_items))
+                start = None
+                i = close + 1
+            elif TYPE_HEAD.search(head) or re.search(r"=\s*$", head):
+                # type definition or initializer: continues to ';'
+                i = close + 1
+            else:
+                # function body
+                items.append((start, close + 1))
+                start = None
+                i = close + 1
+        else:
+            i += 1
+    res = []
+    for it in items:
+        if it[0] == "ns":
+            res.extend(it[2])
+        else:
+            s, e = it
+            f, l = locate(marks, clean, base + s)
+            res.append(Item(f, l, text[s:e]))
+    return res
+
+
+# ---------------------------------------------------------------------------------------------
+# step 3: translation
+# ---------------------------------------------------------------------------------------------
+
+INT_TYPES = r"(?:int|unsigned|unsigned int|bool|int32_t)"
+
+
+class Func:
+    def __init__(self):
+        self.cls = None       # owning class or None
+        self.name = None
+        self.cname = None
+        self.ret = None
+        self.params = []      # list of dict(type, name, ref, arrayref, text)
+        self.static = False
+        self.body = None
+        self.item = None
+        self.tmpl = None
+        self.const = False
+        self.init_list = None
+        self.is_decl = False
+
+
+class Cls:
+    def __init__(self, name):
+        self.name = name
+        self.bases = []
+        self.fields = []       # list of (text, names)
+        self.field_names = []
+        self.methods = {}      # name -> Func (declared or defined)
+        self.statics = {}      # static data member name -> decl text
+        self.item = None
+        self.pre = []          # typedefs hoisted
+
+
+class Translator:
+    def __init__(self, spec, repo):
+        self.spec = spec
+        self.repo = repo
+        self.fired = {}
+        self.enum_classes = set()
+        self.classes = {}
+        self.funcs = []            # all function definitions found (Func)
+        self.template_funcs = set()
+        self.template_classes = set()
+        self.alias = dict(spec.get("class_alias", {}))   # class -> concrete struct name
+        self.keep = spec.get("keep", [])
+        self.drop_log = []
+        self.ref_sigs = {}         # cname -> list of bool (param is ref)
+        self.out_types = []
+        self.out_funcs = []
+        self.protos = []
+        self.method_owner = dict(spec.get("method_owner", {}))
+        self.virtual = dict(spec.get("virtual", {}))
+        self.renames = dict(spec.get("rename_calls", {}))
+        self.dropped_types = set()
+
+    def fire(self, rule, n=1):
+        if n:
+            self.fired[rule] = self.fired.get(rule, 0) + n
+
+    # ----------------------------------------------------------------------------------
+    def is_cxx_file(self, f):
+        b = os.path.basename(f)
+        return f.startswith(self.repo) and (b.endswith(CXX_EXT) or b in CXX_HEADERS_BY_NAME)
+
+    def wanted(self, qualname):
+        return any(fnmatch.fnmatchcase(qualname, p) for p in self.keep)
+
+    # ----------------------------------------------------------------------------------
+    def run(self, items):
+        # pass 1: discover classes, enum classes, templates, functions
+        units = []
+        for it in items:
+            if not self.is_cxx_file(it.file):
+                units.append(("verbatim", it, None))
+                continue
+            kind, data = self.classify(it)
+            units.append((kind, it, data))
+        # method owner table
+        for c in self.classes.values():
+            for mname in c.methods:
+                self.method_owner.setdefault(mname, c.name)
+        # out-of-class definitions inherit static/virtual from the in-class declaration
+        for f in self.funcs:
+            if f.cls and f.cls in self.classes and not getattr(f, "inline_in_class", False):
+                d = self.classes[f.cls].methods.get(f.name)
+                if d is not None and d is not f:
+                    f.static = f.static or d.static
+                    if d.body is None:
+                        self.classes[f.cls].methods[f.name] = f
+        self.ref_returning = set()
+        for f in self.funcs:
+            if f.ret and f.ret.rstrip().endswith("&"):
+                self.ref_returning.add(f.cname)
+        # which functions are kept
+        kept = []
+        for f in self.funcs:
+            q = (f.cls + "::" if f.cls else "") + f.name
+            if f.body is not None and self.wanted(q):
+                kept.append(f)
+        # prefer out-of-class definitions when duplicated
+        seen = {}
+        for f in kept:
+            q = (f.cls, f.name, len(f.params))
+            seen.setdefault(q, []).append(f)
+        self.kept = [fs[-1] for fs in seen.values()]
+        for f in self.kept:
+            self.ref_sigs[f.cname] = [p["ref"] and not p["arrayref"] for p in f.params]
+        # declared-only methods/functions with ref params also matter at call sites
+        for f in self.funcs:
+            if f.cname not in self.ref_sigs:
+                self.ref_sigs[f.cname] = [p["ref"] and not p["arrayref"] for p in f.params]
+        # pass 2: emit
+        out = [PRELUDE]
+        body_part = []
+        last_file = None
+        for kind, it, data in units:
+            lm = '\n# %d "%s"\n' % (it.line, it.file)
+            if kind == "verbatim":
+                out.append(lm + it.text)
+            elif kind == "drop":
+                self.drop_log.append(data)
+            elif kind == "text":
+                out.append(lm + data)
+            elif kind == "class":
+                out.append(lm + self.emit_class(data))
+            elif kind == "func":
+                f = data
+                if f in self.kept:
+                    proto, definition = self.emit_func(f)
+                    out.append(lm + proto + ";")
+                    body_part.append(lm + definition)
+                else:
+                    self.drop_log.append("function %s%s (not selected)" % ((f.cls + "::") if f.cls else "", f.name))
+            elif kind == "methods":
+                # class handled; its inline methods come via self.kept
+                pass
+        # inline methods of classes that are kept
+        for f in self.kept:
+            if f.item is None:
+                continue
+        text = "\n".join(out)
+        text += "\n\n#ifdef RXV_CONTRACTS_H\n#include RXV_CONTRACTS_H\n#endif\n\n"
+        # inline class methods kept: emit prototypes + bodies now
+        for f in self.kept:
+            if getattr(f, "inline_in_class", False):
+                proto, definition = self.emit_func(f)
+                text = text.replace("\n\n#ifdef RXV_CONTRACTS_H", "\n" + proto + ";\n\n#ifdef RXV_CONTRACTS_H", 1)
+                body_part.append('\n# %d "%s"\n' % (f.line, f.file) + definition)
+        text += "\n".join(body_part) + "\n"
+        self.residue_check(text)
+        return text
+
+    # ----------------------------------------------------------------------------------
+    def classify(self, it):
+        t = it.text.strip()
+        m = mask_strings(t)
+        if re.match(r"static_assert\s*\(", m):
+            self.fire("static_assert dropped")
+            return "drop", "static_assert"
+        if re.match(r"template\s*<[^;{]*>\s*(class|struct)\s+[\w:<>, ]+;$", m) or re.match(r"template\s+(class|struct)\b", m):
+            self.fire("explicit template instantiation dropped")
+            return "drop", "template instantiation"
+        mo = re.match(r"(?:static\s+)?constexpr\s+(.*?)\s*\b(\w+)\s*=\s*(.*);$", t, re.S)
+        if mo and "(" not in mo.group(1):
+            ty, name, expr = mo.group(1).strip(), mo.group(2), mo.group(3)
+            self.fire("constexpr object")
+            expr = self.expr_fix(expr)
+            if re.fullmatch(INT_TYPES, ty):
+                return "text", "enum { %s = (%s) };" % (name, expr)
+            return "text", "#define %s ((%s)(%s))\n" % (name, ty, expr.replace("\n", " "))
+        mo = re.match(r"using\s+(\w+)\s*=\s*(.*);$", t, re.S)
+        if mo:
+            name, target = mo.group(1), mo.group(2).strip()
+            if "std::" in target or "<" in target:
+                self.fire("using alias dropped (std/template)")
+                return "drop", "using %s" % name
+            self.fire("using->typedef")
+            if target in self.classes or target in self.alias:
+                target = "struct " + self.alias.get(target, target)
+            return "text", "typedef %s %s;" % (target, name)
+        mo = re.match(r"(class|struct)\s+(\w+)\s*;$", t)
+        if mo:
+            self.fire("forward class decl")
+            n = mo.group(2)
+            sn = self.alias.get(n, n)
+            return "text", "struct %s; typedef struct %s %s;" % (sn, sn, n)
+        mo = re.match(r"enum\s+class\s+(\w+)\s*(?::\s*([\w ]+))?\s*\{(.*)\}\s*;$", t, re.S)
+        if mo:
+            name, ty, body = mo.group(1), (mo.group(2) or "int").strip(), mo.group(3)
+            self.enum_classes.add(name)
+            self.fire("enum class")
+            ents = []
+            for e in split_top(body):
+                e = e.strip()
+                if e:
+                    ents.append(name + "_" + e)
+            return "text", "typedef %s %s;\nenum { %s };" % (ty, name, ", ".join(ents))
+        if re.match(r"typedef\b", m):
+            if "::*" in m or "std::" in m:
+                self.fire("typedef dropped (member pointer/std)")
+                nm = re.search(r"\(\s*(?:\w+\s*::\s*)*\*?\s*(\w+)\s*\)", m) or re.search(r"(\w+)\s*;$", m)
+                if nm:
+                    self.dropped_types.add(nm.group(1))
+                return "drop", "typedef " + t[:60]
+            t2, k = re.subn(r"(\w)\s*&\s*(?=\w*\s*[,)])", r"\1* ", t)
+            self.fire("reference in typedef -> pointer", k)
+            return "text", self.decl_fix(t2)
+        # class / struct definition
+        mo = re.match(r"(?:template\s*<([^>]*)>\s*)?(class|struct)\s+(\w+)\s*(?:final\s*)?(?::\s*([^{]*))?\{", m, re.S)
+        if mo and m.rstrip().endswith(";"):
+            return self.parse_class(it, t, m, mo)
+        if re.match(r"(union|struct|enum)\b", m) and "{" in m and not re.search(r"\)\s*(const\s*)?\{", m.split("{")[0] + "{"):
+            return "text", self.decl_fix(t)
+        # function definition or declaration
+        f = self.parse_func(it, t, m, None)
+        if f is not None:
+            if f.body is None:
+                # declaration only: keep if C-clean, else drop
+                self.funcs.append(f)
+                if re.search(r"&|::|\btemplate\b|\boperator\b", m) or f.tmpl:
+                    self.fire("C++ declaration dropped")
+                    return "drop", "decl " + f.name
+                return "text", self.decl_fix(t)
+            self.funcs.append(f)
+            return "func", f
+        # variable definition
+        return "text", self.var_fix(t)
+
+    # ----------------------------------------------------------------------------------
+    def decl_fix(self, t):
+        t = re.sub(r"\balignas\s*\((\w+)\)", r"__attribute__((aligned(\1)))", t)
+        t = t.replace("nullptr", "NULL")
+        t = re.sub(r"\brandomx::", "", t)
+        return t
+
+    def var_fix(self, t):
+        t = self.decl_fix(t)
+        # out-of-class static member definition  T C::name = v;
+        mo = re.match(r"(.*?)\b(\w+)::(\w+)\s*(=.*|\[.*)?;$", t, re.S)
+        if mo and mo.group(2) in self.classes:
+            self.fire("static member definition")
+            t = "%s %s_%s %s;" % (mo.group(1), mo.group(2), mo.group(3), mo.group(4) or "")
+        t = re.sub(r"\bconstexpr\b", "const", t)
+        return self.expr_fix(t)
+
+    def expr_fix(self, e):
+        e = re.sub(r"\brandomx::", "", e)
+        e = re.sub(r"\b(?:static|reinterpret|const)_cast\s*<([^<>]*(?:<[^<>]*>)?[^<>]*)>\s*\(", r"(\1)(", e)
+        for ec in self.enum_classes:
+            e = re.sub(r"\b%s::(\w+)" % ec, r"%s_\1" % ec, e)
+        e = e.replace("nullptr", "NULL")
+        return e
+
+    # ----------------------------------------------------------------------------------
+    def parse_params(self, ptxt):
+        params = []
+        ptxt = ptxt.strip()
+        if ptxt in ("", "void"):
+            return params
+        for p in split_top(ptxt):
+            p = p.strip()
+            d = {"text": p, "ref": False, "arrayref": False, "name": None, "default": None}
+            pm = re.match(r"(.*?)=\s*([^=]+)$", p, re.S)
+            if pm and "(" not in pm.group(1)[-1:]:
+                p, d["default"] = pm.group(1).strip(), pm.group(2).strip()
+            am = re.match(r"(.*?)\(\s*&\s*(\w*)\s*\)\s*\[(.*)\]$", p, re.S)
+            if am:
+                d.update(ref=True, arrayref=True, name=am.group(2) or None,
+                         ctext="%s* %s" % (am.group(1).strip(), am.group(2)))
+            else:
+                rm = re.match(r"(.*?)\s*&\s*(\w*)$", p, re.S)
+                if rm:
+                    d.update(ref=True, name=rm.group(2) or None, ctext="%s* %s" % (rm.group(1).strip(), rm.group(2)))
+                else:
+                    nm = re.match(r"(.*?)(\w+)\s*(\[[^\]]*\])*$", p, re.S)
+                    d["name"] = nm.group(2) if nm and nm.group(1).strip() else None
+                    d["ctext"] = p
+            d["ctext"] = self.type_fix(d["ctext"])
+            params.append(d)
+        return params
+
+    def type_fix(self, t):
+        t = re.sub(r"\brandomx::", "", t)
+        t = re.sub(r"\b(\w+)\s*<[^<>]*>", lambda mo: mo.group(1) if mo.group(1) in self.template_classes or True else mo.group(0), t)
+        return t
+
+    def parse_func(self, it, t, m, cls):
+        """parse a function definition/declaration; returns Func or None"""
+        tm = re.match(r"template\s*<", m)
+        tmpl = None
+        off = 0
+        if tm:
+            gt = self._match_angle(m, tm.end() - 1)
+            tmpl = t[tm.end():gt]
+            off = gt + 1
+        head_end = None
+        # find first '(' at depth 0 that follows an identifier and is not __attribute__
+        i = off
+        n = len(m)
+        par = None
+        while i < n:
+            ch = m[i]
+            if ch == "(":
+                pre = m[off:i].rstrip()
+                idm = re.search(r"((?:\w+\s*::\s*)*~?\w+|operator\s*\(\s*\)|operator\s*[^\s\w(]+)$", pre)
+                if idm and idm.group(1) in ("__attribute__", "__declspec", "alignas", "__asm__", "decltype"):
+                    i = match_fwd(m, i, "(", ")") + 1
+                    continue
+                if not idm:
+                    return None
+                if idm.group(1) == "operator":
+                    # operator()(...) : the first parenthesis pair is part of the name
+                    i = match_fwd(m, i, "(", ")") + 1
+                    while i < n and m[i].isspace():
+                        i += 1
+                    if i < n and m[i] == "(":
+                        par = i
+                        opcall = True
+                        break
+                    return None
+                par = i
+                break
+            elif ch in "{;=":
+                return None
+            i += 1
+        if par is None:
+            return None
+        pclose = match_fwd(m, par, "(", ")")
+        pre = t[off:par].rstrip()
+        idm = re.search(r"((?:\w+\s*::\s*)*~?\w+|(?:\w+\s*::\s*)*operator\s*\(\s*\)|operator\s*[^\s\w(]+)$", pre)
+        qual = re.sub(r"\s+", "", idm.group(1))
+        rettxt = pre[:idm.start()].strip()
+        f = Func()
+        f.tmpl = tmpl
+        f.item = it
+        f.file, f.line = it.file, it.line
+        parts = qual.split("::")
+        f.name = parts[-1]
+        if len(parts) > 1:
+            f.cls = parts[-2]
+            if f.cls == "randomx":
+                f.cls = None
+        if cls:
+            f.cls = cls
+        rest = m[pclose + 1:]
+        rest_t = t[pclose + 1:]
+        rm = re.match(r"\s*(const\b)?\s*(noexcept\b)?\s*(override\b)?\s*(final\b)?\s*(=\s*0\s*|=\s*default\s*|=\s*delete\s*)?", rest)
+        f.const = bool(rm.group(1))
+        k = rm.end()
+        tail = rest[k:].lstrip()
+        if tail.startswith(";") or tail == "":
+            f.is_decl = True
+            f.body = None
+        elif tail.startswith(":") and not tail.startswith("::"):
+            b = rest.index("{", k)
+            # the init list may contain braces only in C++11 brace-init; assume parens
+            depth = 0
+            j = k
+            while j < len(rest):
+                if rest[j] == "(":
+                    j = match_fwd(rest, j, "(", ")")
+                elif rest[j] == "{":
+                    break
+                j += 1
+            f.init_list = rest_t[rest.index(":", k) + 1:j].strip()
+            bc = match_fwd(rest, j, "{", "}")
+            f.body = rest_t[j:bc + 1]
+        elif tail.startswith("{"):
+            b = rest.index("{", k)
+            bc = match_fwd(rest, b, "{", "}")
+            f.body = rest_t[b:bc + 1]
+        else:
+            return None
+        quals = rettxt
+        f.static = bool(re.search(r"\bstatic\b", quals))
+        f.virtual = bool(re.search(r"\bvirtual\b", quals))
+        quals = re.sub(r"\b(static|inline|virtual|constexpr|explicit|friend|extern)\b", " ", quals)
+        quals = re.sub(r"__attribute__\s*\(\(.*?\)\)", " ", quals)
+        f.ret = " ".join(quals.split())
+        if f.cls and f.name == f.cls:
+            f.name, f.ret = "ctor", "void"
+        if f.name.startswith("~"):
+            f.name, f.ret = "dtor", "void"
+        if f.name.startswith("operator"):
+            f.name = "op_call" if "(" in f.name else "op_" + str(abs(hash(f.name)) % 1000)
+        f.params = self.parse_params(t[par + 1:pclose])
+        f.cname = (f.cls + "_" if f.cls else "") + f.name
+        if f.cname in self.spec.get("rename_defs", {}):
+            f.cname = self.spec["rename_defs"][f.cname]
+        if tmpl is not None and not f.cls:
+            self.template_funcs.add(f.name)
+        if tmpl is not None and f.cls:
+            self.template_funcs.add(f.name)
+        return f
+
+    def _match_angle(self, m, i):
+        d = 0
+        for j in range(i, len(m)):
+            if m[j] == "<":
+                d += 1
+            elif m[j] == ">":
+                d -= 1
+                if d == 0:
+                    return j
+        raise ExtractError("unbalanced <")
+
+    # ----------------------------------------------------------------------------------
+    def parse_class(self, it, t, m, mo):
+        name = mo.group(3)
+        c = self.classes.get(name) or Cls(name)
+        c.item = it
+        if mo.group(1) is not None:
+            self.template_classes.add(name)
+        if mo.group(4):
+            for b in split_top(mo.group(4)):
+                b = re.sub(r"\b(public|protected|private|virtual)\b", "", b).strip()
+                b = re.sub(r"<.*>", "", b).strip()
+                b = b.split("::")[-1]
+                if b:
+                    c.bases.append(b)
+        bo = m.index("{", mo.end() - 1)
+        bc = match_fwd(m, bo, "{", "}")
+        body, mbody = t[bo + 1:bc], m[bo + 1:bc]
+        mbody2 = re.sub(r"\b(public|protected|private)\s*:", lambda x: " " * len(x.group(0)), mbody)
+        body2 = "".join(ch if mbody2[i] == mbody[i] else " " for i, ch in enumerate(body))
+        # members
+        for s, e in self._member_spans(mbody2):
+            mt, mm = body2[s:e].strip(), mbody2[s:e].strip()
+            if not mt:
+                continue
+            if re.match(r"(friend|using|static_assert)\b", mm):
+                self.fire("class-level friend/using/static_assert dropped")
+                continue
+            if re.match(r"typedef\b", mm):
+                c.pre.append(self.decl_fix(mt))
+                continue
+            if re.match(r"(?:static\s+)?constexpr\s+[\w ]+\b\w+\s*=", mm) and "(" not in mm.split("=")[0]:
+                k, d = self.classify(Item(it.file, it.line, mt))
+                c.pre.append(d)
+                continue
+            if re.match(r"(union|struct)\s*\{", mm):
+                c.fields.append((self.decl_fix(mt), []))
+                # names inside an anonymous union are directly accessible
+                inner = mm[mm.index("{") + 1:mm.rindex("}")]
+                after = mm[mm.rindex("}") + 1:].strip(" ;")
+                if after:
+                    c.field_names.append(after)
+                else:
+                    for x in inner.split(";"):
+                        nm = re.search(r"(\w+)\s*(\[[^\]]*\])*\s*$", x.strip())
+                        if nm:
+                            c.field_names.append(nm.group(1))
+                continue
+            f = self.parse_func(Item(it.file, it.line + body[:s].count("\n") + t[:bo].count("\n"), mt), mt, mm, name)
+            if f is not None:
+                c.methods[f.name] = f
+                f.inline_in_class = f.body is not None
+                self.funcs.append(f)
+                continue
+            if re.match(r"static\b", mm):
+                nm = re.search(r"(\w+)\s*(\[[^\]]*\])*\s*(=.*)?;$", mm, re.S)
+                if nm:
+                    c.statics[nm.group(1)] = mt
+                self.fire("static data member hoisted")
+                continue
+            # plain field(s): drop default initialisers
+            ft = mt
+            fm = re.match(r"(.*?)\s*=\s*[^;]*;$", ft, re.S)
+            if fm and "(" not in fm.group(1):
+                ft = fm.group(1) + ";"
+                self.fire("default member initialiser dropped")
+            ft = self.decl_fix(ft)
+            ft = re.sub(r"\b(\w+)\s*<[^<>;]*>", r"\1", ft)
+            rm = re.match(r"(.*?)\s*&\s*(\w+)\s*;$", ft, re.S)
+            if rm:
+                ft = "%s* %s;" % (rm.group(1), rm.group(2))
+                self.fire("reference field->pointer")
+            names = []
+            decl = ft.rstrip(";")
+            for k, part in enumerate(split_top(decl)):
+                nm = re.search(r"(\w+)\s*(\[[^\]]*\])*\s*$", part.strip())
+                if nm:
+                    names.append(nm.group(1))
+            c.fields.append((ft, names))
+            c.field_names.extend(names)
+        self.classes[name] = c
+        self.fire("class->struct")
+        return "class", c
+
+    def _member_spans(self, m):
+        spans = []
+        i, n, start = 0, len(m), None
+        while i < n:
+            ch = m[i]
+            if start is None:
+                if ch.isspace() or ch == ";":
+                    i += 1
+                    continue
+                start = i
+            if ch == ";":
+                spans.append((start, i + 1))
+                start = None
+                i += 1
+            elif ch in "([":
+                i = match_fwd(m, i, ch, ")" if ch == "(" else "]") + 1
+            elif ch == "{":
+                head = m[start:i]
+                close = match_fwd(m, i, "{", "}")
+                if TYPE_HEAD.search(head) or re.search(r"=\s*$", head) or re.match(r"\s*(union|struct)\s*$", head):
+                    i = close + 1
+                else:
+                    spans.append((start, close + 1))
+                    start = None
+                    i = close + 1
+            else:
+                i += 1
+        return spans
+
+    # ----------------------------------------------------------------------------------
+    def all_fields(self, cname, seen=None):
+        """(field texts, names) of class with bases flattened first"""
+        seen = seen or set()
+        c = self.classes.get(cname)
+        if c is None or cname in seen:
+            return [], []
+        seen.add(cname)
+        texts, names = [], []
+        for b in c.bases:
+            t2, n2 = self.all_fields(b, seen)
+            texts += t2
+            names += n2
+        texts += [f[0] for f in c.fields]
+        names += c.field_names
+        return texts, names
+
+    def all_methods(self, cname, seen=None):
+        seen = seen or set()
+        c = self.classes.get(cname)
+        res = {}
+        if c is None or cname in seen:
+            return res
+        seen.add(cname)
+        for b in c.bases:
+            res.update(self.all_methods(b, seen))
+        for k, f in c.methods.items():
+            res[k] = f
+        return res
+
+    def all_statics(self, cname, seen=None):
+        seen = seen or set()
+        c = self.classes.get(cname)
+        res = {}
+        if c is None or cname in seen:
+            return res
+        seen.add(cname)
+        for b in c.bases:
+            res.update(self.all_statics(b, seen))
+        for k in c.statics:
+            res[k] = c.name
+        return res
+
+    def struct_name(self, cname):
+        return self.alias.get(cname, cname)
+
+    def emit_class(self, c):
+        sn = self.struct_name(c.name)
+        out = list(c.pre)
+        if sn != c.name:
+            # aliased onto a concrete (flattened) struct emitted elsewhere
+            out.append("struct %s; typedef struct %s %s;" % (sn, sn, c.name))
+            self.fire("class aliased onto concrete struct")
+            # if this is the concrete class itself it is emitted when reached
+            return "\n".join(out)
+        texts, names = self.all_fields(c.name)
+        if not texts:
+            texts = ["char rxv_empty_;"]
+        out.append("struct %s {\n\t%s\n};\ntypedef struct %s %s;" % (sn, "\n\t".join(texts), sn, c.name))
+        for a, tgt in self.alias.items():
+            if tgt == c.name and a != c.name and a in self.classes and self.classes[a].item is not None:
+                pass
+        for sname, stext in c.statics.items():
+            if any(re.search(r"\b%s\b" % re.escape(d), stext) for d in self.dropped_types):
+                self.fire("static data member of dropped type omitted")
+                continue
+            st = re.sub(r"\bstatic\b", "extern", self.decl_fix(stext), 1)
+            st = re.sub(r"\b(%s)\b(?=\s*(\[|;|=))" % re.escape(sname), "%s_%s" % (c.name, sname), st)
+            st = re.sub(r"\s*=\s*[^;]*;", ";", st)
+            out.append(st)
+        return "\n".join(out)
+
+    # ----------------------------------------------------------------------------------
+    def emit_func(self, f):
+        params = []
+        cls_for_members = f.cls
+        if f.cls and not f.static:
+            sn = self.struct_name(f.cls)
+            params.append("%sstruct %s* self" % ("const " if False else "", sn))
+        for p in f.params:
+            params.append(p["ctext"])
+            if p["default"] is not None:
+                self.fire("default argument dropped")
+        static_kw = ""
+        if f.item is not None and re.match(r"(?:template\s*<[^>]*>\s*)?(?:[\w\s]*\b)?static\b", f.item.text.split("(")[0]) and not f.cls:
+            static_kw = "static "
+        if getattr(f, "inline_in_class", False) or re.search(r"\b(inline|constexpr)\b", f.item.text.split("(")[0]):
+            static_kw = "static "
+        ret = self.type_fix(self.expr_fix(f.ret))
+        ref_ret = ret.rstrip().endswith("&")
+        if ref_ret:
+            ret = ret.rstrip()[:-1].rstrip() + "*"
+            self.fire("reference return -> pointer")
+        proto = "%s%s %s(%s)" % (static_kw, ret, f.cname, ", ".join(params) if params else "void")
+        body = self.body_fix(f)
+        if ref_ret:
+            body = re.sub(r"\breturn\s+([^;]+);", r"return &(\1);", body)
+        if f.init_list:
+            inits = []
+            for x in split_top(f.init_list):
+                im = re.match(r"\s*(\w+)\s*\((.*)\)\s*$", x, re.S)
+                if im and im.group(1) in self.all_fields(f.cls)[1]:
+                    inits.append("self->%s = %s;" % (im.group(1), self.expr_only_fix(im.group(2), f) or "0"))
+                    self.fire("ctor init-list -> assignment")
+                elif im:
+                    inits.append("/* base/member ctor %s(...) not modelled */" % im.group(1))
+                    self.fire("ctor init-list base call dropped")
+            body = "{\n\t" + "\n\t".join(inits) + "\n" + body[1:]
+        return proto, proto + "\n" + body
+
+    def expr_only_fix(self, e, f):
+        g = Func()
+        g.__dict__.update(f.__dict__)
+        g.body = "{" + e + ";}"
+        g.init_list = None
+        r = self.body_fix(g)
+        return r[1:-2].strip().rstrip(";")
+
+    # ----------------------------------------------------------------------------------
+    def body_fix(self, f):
+        b = f.body
+        b = self.expr_fix(b)
+        n0 = len(re.findall(r"\b(?:static|reinterpret|const)_cast\b", f.body))
+        self.fire("cast", n0)
+        # template arguments at calls
+        def tcall(mo):
+            if mo.group(1) in self.template_funcs or mo.group(1) in self.template_classes:
+                self.fire("template args dropped at use")
+                return mo.group(1) + mo.group(3)
+            return mo.group(0)
+        b = re.sub(r"\b(\w+)\s*<([\w\s,:]*)>(\s*\(|\s*::)", tcall, b)
+        b = re.sub(r"\bstd::swap\s*\(", lambda mo: (self.fire("std::swap"), "RXV_SWAP(")[1], b)
+        b = re.sub(r"\bstd::max\s*\(", lambda mo: (self.fire("std::max"), "RXV_MAX(")[1], b)
+        b = re.sub(r"\bstd::min\s*\(", lambda mo: (self.fire("std::min"), "RXV_MIN(")[1], b)
+        b = re.sub(r"\balignas\s*\((\w+)\)", r"__attribute__((aligned(\1)))", b)
+        b = re.sub(r"\bconstexpr\b", "const", b)
+        b = re.sub(r"\bthrow\s+[\w:]+\s*\(([^;]*)\)\s*;", lambda mo: (self.fire("throw"), "RXV_THROW(%s);" % mo.group(1))[1], b)
+        # auto
+        def auto_ref(mo):
+            self.fire("auto&")
+            name, expr = mo.group(2), mo.group(3)
+            self._local_refs.append(name)
+            return "%s__typeof__(%s)* %s = &(%s);" % (mo.group(1) or "", expr, name, expr)
+        self._local_refs = []
+        b = re.sub(r"\b(const\s+)?auto\s*&\s*(\w+)\s*=\s*([^;]+);", auto_ref, b)
+        def auto_val(mo):
+            self.fire("auto")
+            return "%s__typeof__(%s) %s = %s;" % (mo.group(1) or "", mo.group(3), mo.group(2), mo.group(3))
+        b = re.sub(r"\b(const\s+)?auto\s+(\w+)\s*=\s*([^;]+);", auto_val, b)
+        # explicit local references  T& x = e;
+        def loc_ref(mo):
+            self.fire("local reference")
+            self._local_refs.append(mo.group(2))
+            return "%s* %s = &(%s);" % (mo.group(1), mo.group(2), mo.group(3))
+        b = re.sub(r"\b((?:const\s+)?\w+)\s*&\s*(\w+)\s*=\s*([^;]+);", loc_ref, b)
+        # uses of reference params and local refs
+        refs = [p["name"] for p in f.params if p["ref"] and not p["arrayref"] and p["name"]] + self._local_refs
+        for r in refs:
+            # skip the declaration itself  "T* r = &("
+            def use(mo, r=r):
+                pre = b[max(0, mo.start() - 2):mo.start()]
+                return mo.group(0)
+            pat = re.compile(r"(?<![\w.>])%s\b(?!\s*=\s*&\()" % re.escape(r))
+            cnt = 0
+            out, pos = [], 0
+            for mo in pat.finditer(b):
+                # not the declarator we just produced: preceded by '* '
+                before = b[max(0, mo.start() - 2):mo.start()]
+                if before.endswith("* ") and r in self._local_refs and re.match(r"\s*=\s*&\(", b[mo.end():]):
+                    continue
+                if b[max(0, mo.start() - 2):mo.start()] == "->":
+                    continue
+                out.append(b[pos:mo.start()] + "(*%s)" % r)
+                pos = mo.end()
+                cnt += 1
+            out.append(b[pos:])
+            b = "".join(out)
+            self.fire("reference use -> deref", cnt)
+        # member machinery
+        if f.cls:
+            b = self.member_fix(b, f)
+        b = self.method_calls(b, f)
+        b = self.ref_args(b)
+        # calls of reference-returning functions are dereferenced
+        for cn in self.ref_returning:
+            pos = 0
+            pat = re.compile(r"(?<![\w.>*])%s\s*\(" % re.escape(cn))
+            while True:
+                mo = pat.search(b, pos)
+                if not mo:
+                    break
+                q = match_fwd(mask_strings(b), mo.end() - 1, "(", ")")
+                b = b[:mo.start()] + "(*" + b[mo.start():q + 1] + ")" + b[q + 1:]
+                pos = q + 3
+                self.fire("call of reference-returning function dereferenced")
+        return b
+
+    # qualified / member calls ----------------------------------------------------------
+    def member_fix(self, b, f):
+        texts, fields = self.all_fields(f.cls)
+        methods = self.all_methods(f.cls)
+        statics = self.all_statics(f.cls)
+        locals_ = set(p["name"] for p in f.params if p["name"])
+        # Base::method(...) / Class::method(...) inside a method
+        def qcall(mo):
+            cls, name = mo.group(1), mo.group(2)
+            tgt = self.classes.get(cls)
+            if tgt is None:
+                return mo.group(0)
+            meth = self.all_methods(cls).get(name)
+            owner = meth.cls if meth else cls
+            cn = self.renames.get("%s_%s" % (owner, name), "%s_%s" % (owner, name))
+            self.fire("qualified method call")
+            if meth is not None and meth.static:
+                return "%s(" % cn
+            rest = b[mo.end():]
+            return "%s(self%s" % (cn, "" if rest.lstrip().startswith(")") else ", ")
+        b = re.sub(r"\b(\w+)::(\w+)\s*\(", qcall, b)
+        # Class::staticdata
+        def qstat(mo):
+            if mo.group(1) in self.classes:
+                self.fire("qualified static member")
+                return "%s_%s" % (mo.group(1), mo.group(2))
+            return mo.group(0)
+        b = re.sub(r"\b(\w+)::(\w+)\b(?!\s*\()", qstat, b)
+        # unqualified method calls
+        for name, meth in methods.items():
+            if name in ("ctor", "dtor"):
+                continue
+            tname = self.virtual.get(name)
+            owner = tname or meth.cls
+            cn = self.renames.get("%s_%s" % (owner, name), "%s_%s" % (owner, name))
+            pat = re.compile(r"(?<![\w.>:])%s\s*\(" % re.escape(name))
+            out, pos, cnt = [], 0, 0
+            for mo in pat.finditer(b):
+                rest = b[mo.end():]
+                if meth.static:
+                    rep = "%s(" % cn
+                else:
+                    rep = "%s(self%s" % (cn, "" if rest.lstrip().startswith(")") else ", ")
+                out.append(b[pos:mo.start()] + rep)
+                pos = mo.end()
+                cnt += 1
+            out.append(b[pos:])
+            b = "".join(out)
+            self.fire("own method call", cnt)
+        # static data members
+        for sname, owner in statics.items():
+            b, k = re.subn(r"(?<![\w.>:])%s\b(?!\s*\()" % re.escape(sname), "%s_%s" % (owner, sname), b)
+            self.fire("static data member use", k)
+        if not f.static:
+            for name in fields:
+                if name in locals_:
+                    continue
+                # a local declaration with the same name shadows the member
+                if re.search(r"\b(?:int|unsigned|uint\d+_t|int\d+_t|size_t|char|auto|\w+_t|\w+\s*\*)\s+%s\s*[=;,\[]" % re.escape(name), b):
+                    self.fire("member shadowed by local (left alone)")
+                    continue
+                b, k = re.subn(r"(?<![\w.>:])%s\b(?!\s*::)" % re.escape(name), "self->%s" % name, b)
+                b = b.replace("self->self->", "self->")
+                self.fire("member -> self->", k)
+        b = re.sub(r"\bthis\s*->", "self->", b)
+        b = re.sub(r"\bthis\b", "self", b)
+        return b
+
+    def method_calls(self, b, f):
+        """expr.method(args) / expr->method(args) for methods of known classes; Class::static(...) anywhere"""
+        # Class::f( outside class context
+        def qcall(mo):
+            cls, name = mo.group(1), mo.group(2)
+            if cls in self.classes:
+                self.fire("Class::static call")
+                cn = "%s_%s" % (cls, name)
+                return self.renames.get(cn, cn) + "("
+            return mo.group(0)
+        b = re.sub(r"\b(\w+)::(\w+)\s*\(", qcall, b)
+        pat = re.compile(r"(\.|->)\s*(\w+)\s*\(")
+        pos = 0
+        while True:
+            mo = pat.search(b, pos)
+            if not mo:
+                break
+            name = mo.group(2)
+            owner = self.virtual.get(name) or self.method_owner.get(name)
+            if owner is None or owner not in self.classes or name not in self.all_methods(owner):
+                pos = mo.end()
+                continue
+            meth = self.all_methods(owner)[name]
+            # object expression: scan backwards
+            j = mo.start() - 1
+            while j >= 0 and b[j].isspace():
+                j -= 1
+            end = j + 1
+            while j >= 0:
+                ch = b[j]
+                if ch == ")":
+                    j = match_back(b, j, "(", ")") - 1
+                elif ch == "]":
+                    j = match_back(b, j, "[", "]") - 1
+                elif ch.isalnum() or ch == "_":
+                    while j >= 0 and (b[j].isalnum() or b[j] == "_"):
+                        j -= 1
+                    # continue through . or ->
+                    k = j
+                    while k >= 0 and b[k].isspace():
+                        k -= 1
+                    if k >= 0 and b[k] == ".":
+                        j = k - 1
+                        continue
+                    if k >= 1 and b[k - 1:k + 1] == "->":
+                        j = k - 2
+                        continue
+                    break
+                else:
+                    break
+            obj = b[j + 1:end]
+            if not obj.strip():
+                pos = mo.end()
+                continue
+            cn = "%s_%s" % (meth.cls if not self.virtual.get(name) else owner, name)
+            cn = self.renames.get(cn, cn)
+            if name == "op_call":
+                pos = mo.end()
+                continue
+            selfarg = ("&(%s)" % obj.strip()) if mo.group(1) == "." else obj.strip()
+            rest = b[mo.end():]
+            if meth.static:
+                rep = "%s(" % cn
+            else:
+                rep = "%s(%s%s" % (cn, selfarg, "" if rest.lstrip().startswith(")") else ", ")
+            b = b[:j + 1] + rep + b[mo.end():]
+            pos = j + 1 + len(rep)
+            self.fire("object method call")
+        # operator() on objects whose declared type is a class with operator()
+        opcls = [c for c in self.classes.values() if "op_call" in c.methods]
+        if opcls:
+            cand = {}
+            decls = [p["ctext"] for p in f.params]
+            if f.cls:
+                decls += self.all_fields(f.cls)[0]
+            for d in decls:
+                for c in opcls:
+                    dm = re.match(r"\s*(?:const\s+)?(?:struct\s+)?%s\s*(\*?)\s*(\w+)\s*;?$" % re.escape(c.name), d)
+                    if dm:
+                        cand[dm.group(2)] = (c.name, bool(dm.group(1)))
+            for v, (cn, isptr) in cand.items():
+                pat2 = re.compile(r"(?<![\w.>])(\(\*%s\)|self->%s|%s)\s*\(" % (re.escape(v), re.escape(v), re.escape(v)))
+                def oc(mo, cn=cn, v=v, isptr=isptr):
+                    self.fire("operator() call")
+                    tok = mo.group(1)
+                    if tok.startswith("(*"):
+                        return "%s_op_call(%s, " % (cn, v)
+                    return "%s_op_call(%s%s, " % (cn, "" if isptr else "&", tok)
+                b = pat2.sub(oc, b)
+        # operator() on configured objects:  name(args) -> Class_op_call(&name, args)
+        for objname, cn in self.spec.get("call_ops", {}).items():
+            pat2 = re.compile(r"(?<![\w.>])%s\s*\(" % re.escape(objname))
+            b, k = pat2.subn("%s(&(%s), " % (cn, objname if not objname.startswith("self->") else objname), b)
+            self.fire("operator() call", k)
+        return b
+
+    def ref_args(self, b):
+        """wrap arguments bound to reference parameters of known functions in &( )"""
+        names = [n for n, sig in self.ref_sigs.items() if any(sig)]
+        if not names:
+            return b
+        pat = re.compile(r"(?<![\w.>])(%s)\s*\(" % "|".join(re.escape(n) for n in sorted(names, key=len, reverse=True)))
+        pos = 0
+        m = mask_strings(b)
+        while True:
+            mo = pat.search(b, pos)
+            if not mo:
+                break
+            name = mo.group(1)
+            sig = list(self.ref_sigs[name])
+            p = mo.end() - 1
+            m = mask_strings(b)
+            q = match_fwd(m, p, "(", ")")
+            args = split_top(b[p + 1:q])
+            fobj = [x for x in self.funcs if x.cname == name]
+            has_self = bool(fobj and fobj[-1].cls and not fobj[-1].static)
+            if has_self:
+                sig = [False] + sig
+            if len(args) != len(sig) or (len(args) == 1 and not args[0].strip()):
+                pos = mo.end()
+                continue
+            new = []
+            for a, r in zip(args, sig):
+                if r:
+                    a2 = a.strip()
+                    if a2.startswith("(*") and a2.endswith(")") and match_fwd(a2, 0, "(", ")") == len(a2) - 1:
+                        new.append(" " + a2[2:-1])
+                    else:
+                        new.append(" &(%s)" % a2)
+                    self.fire("argument bound to reference -> address")
+                else:
+                    new.append(a)
+            rep = ",".join(new)
+            b = b[:p + 1] + rep + b[q:]
+            pos = p + 1
+        return b
+
+    # ----------------------------------------------------------------------------------
+    def residue_check(self, text):
+        # only look at lines that came from C++ files (after prelude); cheap global scan
+        m = mask_strings(text)
+        # strip linemarkers and the verbatim C parts is hard; scan whole text for C++-only tokens
+        bad = []
+        for pat, what in ((r"\b\w+::\w+", "scope operator"), (r"\btemplate\s*<", "template"), (r"\bauto\b", "auto"),
+                          (r"\bnew\s+\w", "new"), (r"\bdelete\b", "delete"), (r"\bthrow\b", "throw"),
+                          (r"\btry\s*\{", "try"), (r"\bcatch\s*\(", "catch"), (r"\bnullptr\b", "nullptr"),
+                          (r"\b(?:static|reinterpret|const|dynamic)_cast\b", "C++ cast"), (r"\boperator\b", "operator")):
+            for mo in re.finditer(pat, m):
+                line = m.count("\n", 0, mo.start()) + 1
+                ctx = text[max(0, mo.start() - 40):mo.end() + 40].replace("\n", " ")
+                bad.append("%s at output line %d: ...%s..." % (what, line, ctx))
+        if bad:
+            raise ExtractError("C++ residue after rewriting: " + " | ".join(bad[:5]))
+
+
 def translate(spec, repo, scratch):
-    raise ExtractError("not implemented")
+    """spec keys: main (path rel. to repo), keep [patterns], defines, undefs, class_alias, method_owner, virtual,
+    call_ops, rename_calls, rename_defs, portable (bool, default True)"""
+    path = os.path.join(repo, spec["main"])
+    undefs = list(spec.get("undefs", []))
+    if spec.get("portable", True):
+        undefs += PORTABLE_UNDEFS
+    defines = ['UNREACHABLE=__CPROVER_assert(0,"UNREACHABLE reached")'] + list(spec.get("defines", []))
+    pp = preprocess(path, repo, defines, undefs, spec.get("incdirs", []))
+    clean, marks = strip_linemarkers(pp)
+    items = split_items(clean, marks)
+    tr = Translator(spec, repo)
+    text = tr.run(items)
+    fired = ["%s x%d" % (k, v) for k, v in sorted(tr.fired.items())]
+    for rule, minimum in spec.get("must_fire", {}).items():
+        if tr.fired.get(rule, 0) < minimum:
+            raise ExtractError("rule '%s' fired %d times, expected >= %d" % (rule, tr.fired.get(rule, 0), minimum))
+    return text, fired
+
+
+if __name__ == "__main__":
+    import sys, json
+    spec = json.load(open(sys.argv[1]))
+    t, f = translate(spec, "/repo", "/tmp")
+    sys.stdout.write(t)
+    sys.stderr.write("\n".join(f) + "\n")
